@@ -67,7 +67,7 @@ void run_history(Run &R, int maxops) {
   int nops = 1 + (int)c.t.below(maxops);
   for (int step = 0; step < nops; step++) {
     R.ops++; c.ops++;
-    static const uint16_t W[6] = {16, 34, 18, 14, 12, 6};
+    static const uint16_t W[8] = {16, 34, 18, 14, 12, 6, 8, 5};
     uint32_t op = c.t.weighted(W);
     if (op == 0) {        // the application modifies parameters in RAM
       int i = first + (int)c.t.below((uint32_t)(ng + 1 - first)); SplitMix r(c.t.u16()); for (int k = 0; k < g[i].size; k++) g[i].ram[k] = (uint8_t)r.next(); VLOG(c, "modify RAM of group %d", i);
@@ -123,6 +123,26 @@ void run_history(Run &R, int maxops) {
         else CHECK(c, !memcmp(g[i].ram, rb[i].data(), g[i].size), "reset-reloads-type", "NMT reset communication reloaded group %d of reset type 'node'", i);
       }
       if (stored && !h) R.stored_then_restart = true;
+    } else if (op == 6) { // the application stores one group through the API (the same request without the detour over SDO): exactly that group's bytes, if it is enabled for storing
+      int i = first + (int)c.t.below((uint32_t)(ng + 1 - first));
+      std::vector<uint8_t> rb = s.snapshot();
+      arm(); s.api_begin(); CO_ERR e = COParaStore(g[i].pg, s.node); s.api_end("COParaStore"); bool h = done();
+      VLOG(c, "COParaStore(group %d) -> %d%s", i, (int)e, h ? "   (NVM fault injected)" : "");
+      CHECK(c, rb == s.snapshot(), "store-leaves-ram", "COParaStore changed RAM: %s", s.diff_snapshot(rb, s.snapshot()).c_str());
+      if (g[i].en) memcpy(mnv.data() + g[i].off, g[i].ram, g[i].size);
+      if (h) { CHECK(c, e != CO_ERR_NONE, "short-write-surfaced", "a short NVM write during COParaStore(group %d) was reported as success", i); mnv = s.nvm; }
+      else { CHECK(c, e == CO_ERR_NONE, "store-accepted", "COParaStore(group %d) failed with %d without any NVM fault", i, (int)e);
+        for (size_t k = 0; k < mnv.size(); k++) CHECK(c, mnv[k] == s.nvm[k], "store-exact", "after COParaStore(group %d, %s) NVM byte %zu is %02X, expected %02X (exactly the bytes of that group, if it is enabled for storing)", i, g[i].en ? "enabled" : "not enabled", k, s.nvm[k], mnv[k]);
+        if (g[i].en) stored = true; }
+      c.cls("store-through-the-api");
+    } else if (op == 7) { // ... and restores one group through the API
+      int i = first + (int)c.t.below((uint32_t)(ng + 1 - first));
+      std::vector<uint8_t> nb = s.nvm; std::fill(defcalls.begin(), defcalls.end(), 0);
+      arm(); s.api_begin(); CO_ERR e = COParaRestore(g[i].pg, s.node); s.api_end("COParaRestore"); done();
+      VLOG(c, "COParaRestore(group %d) -> %d", i, (int)e);
+      CHECK(c, nb == s.nvm, "restore-leaves-nvm", "COParaRestore changed the NVM");
+      CHECK(c, e == CO_ERR_NONE, "restore-accepted", "COParaRestore(group %d) failed with %d", i, (int)e);
+      for (int k = first; k <= ng; k++) { int sel = (k == i && g[k].en) ? 1 : 0; CHECK(c, defcalls[k] == sel, "restore-exact-groups", "COParaRestore(group %d): default callback invoked %d time(s) for group %d, expected %d", i, defcalls[k], k, sel); }
     } else {              // read 1010h / 1011h sub-indices
       uint32_t v; int sub = (int)c.t.below(ng + 2); arm(); cl.read(c.t.coin() ? 0x1010 : 0x1011, (uint8_t)sub, &v); done();
     }
@@ -152,7 +172,7 @@ void case_faultenum(Ctx &c) {
 
 Registrar reg(Prop{
     "C17",
-    "Cases: 1..4 parameter groups - or a device with sub-index 1 only, which then addresses its single group; highest sub-index of 1010h/1011h a direct constant or (a quarter of the node ids) a referenced variable at a chosen position of a 256-byte line - (size 1..64, non-overlapping NVM offsets with gaps, reset type node/communication, enable flags from {disabled, on command, autonomously, both}: store-on-command is bit 0) behind 1010h/1011h sub-indices 2..n+1 plus the 'all' sub-index 1, random RAM and NVM images; histories of RAM modifications, SDO writes to 1010h/1011h with right and wrong signatures (the other signature, random values, and the first 1..3 bytes of the right one announced as such with the rest of it in the unused bytes of the frame), restarts (RAM lost, NVM kept), NMT reset node/communication and reads. "
+    "Cases: 1..4 parameter groups - or a device with sub-index 1 only, which then addresses its single group; highest sub-index of 1010h/1011h a direct constant or (a quarter of the node ids) a referenced variable at a chosen position of a 256-byte line - (size 1..64, non-overlapping NVM offsets with gaps, reset type node/communication, enable flags from {disabled, on command, autonomously, both}: store-on-command is bit 0) behind 1010h/1011h sub-indices 2..n+1 plus the 'all' sub-index 1, random RAM and NVM images; histories of RAM modifications, SDO writes to 1010h/1011h with right and wrong signatures (the other signature, random values, and the first 1..3 bytes of the right one announced as such with the rest of it in the unused bytes of the frame), restarts (RAM lost, NVM kept), NMT reset node/communication, reads, and the same store / restore requests made by the application through COParaStore / COParaRestore for one group. "
     "Mode fault-enum: each generated history of <= 12 (24) ops is first run without fault to count its NVM driver calls N and is then re-run once for EVERY fault position k = 1..N (k-th NVM call returns a short count); mode random: longer histories with a random fault position. "
     "Oracle: reference model of RAM, NVM, verdicts and node error (set after a step with a short count, none after a fault-free restart or reset): 'save' writes exactly the addressed enabled groups (byte-exact NVM compare), 'load' calls COParaDefault for exactly those, other values refused with RAM and NVM byte-identical, after restart/reset the groups of the right type equal the last successfully stored image, a short count yields an SDO abort (store) or a node error (load); in the fault step itself only the error signal is required. "
     "Non-trivial: a successful store followed by a restart/reset, or a fault position that was hit. evaluations counts generated histories; every fault-enum history additionally executes N faulted replays (class fault-position-executed). Distinct = distinct decoded choice sequence.",
